@@ -316,7 +316,8 @@ Section Hist.
   Qed.
 
   (* ---------------- invariants ---------------- *)
-  Definition entries (s : st) (p : path) (ts : Z) : Prop := In (p, ts) (pending s) \/ In (p, ts) (disk s).
+  Definition entries (s : st) (p : path) (ts : Z) : Prop :=
+    In (p, ts) (pending s) \/ In (p, ts) (disk s) \/ In (p, ts) (psnap s).
 
   (* state invariant *)
   Definition Sinv (s : st) : Prop :=
@@ -392,8 +393,9 @@ Section Hist.
     - (* Retention *)
       intros [H|H]; [|auto]. apply in_app_or in H. destruct H as [H|H]; [auto|].
       apply in_map_iff in H. destruct H as [q [Hq Hin]]. inversion Hq; subst. auto.
-    - (* Persist *) intros [H|H]; auto.
-    - (* Restart *) intros [[]|H]; auto.
+    - (* PersistSnap *) intros [H|[H|H]]; auto.
+    - (* PersistPut *) intros [H|[H|H]]; auto.
+    - (* Restart *) intros [[]|[H|[]]]; auto.
     - (* Load *) intros [H|H]; [|auto]. apply load_merge_sub in H. tauto.
     - split_step; auto.
     - split_step; auto.
@@ -769,7 +771,7 @@ Qed.
 (* what Persist wrote is what Load brings back after a restart *)
 Theorem persisted_survive_restart c s p ts :
   In (p, ts) (pending s) ->
-  let s1 := run c [Persist; Restart; Load] s in
+  let s1 := run c [PersistSnap; PersistPut; Restart; Load] s in
   exists ts', In (p, ts') (pending s1) /\ In (p, ts') (pending s).
 Proof.
   intros H. simpl. destruct (load_merge_covers (pending s) [] p ts H) as [ts' [H1 [[]|H2]]].
@@ -806,14 +808,14 @@ Qed.
 Theorem persisted_then_deleted c s p ts d :
   In (p, ts) (pending s) -> (forall q t, In (q, t) (pending s) -> t <= now s) ->
   g_grace c <= d -> ~ In p (pins s) ->
-  let s1 := run c [Persist; Restart; Load; Tick d; GcFilter] s in
+  let s1 := run c [PersistSnap; PersistPut; Restart; Load; Tick d; GcFilter] s in
   In p (deletes c s1 (GcDelete p)) /\ ~ In p (objs (step c s1 (GcDelete p))).
 Proof.
   intros Hin Hts Hd Hp.
   destruct (persisted_survive_restart c s p ts Hin) as [ts' [H1 H2]].
-  set (s0 := run c [Persist; Restart; Load; Tick d] s).
-  assert (E : run c [Persist; Restart; Load; Tick d; GcFilter] s = step c s0 GcFilter) by reflexivity.
-  simpl. change (run c [Persist; Restart; Load; Tick d; GcFilter] s) with (step c s0 GcFilter) in *.
+  set (s0 := run c [PersistSnap; PersistPut; Restart; Load; Tick d] s).
+  assert (E : run c [PersistSnap; PersistPut; Restart; Load; Tick d; GcFilter] s = step c s0 GcFilter) by reflexivity.
+  simpl. change (run c [PersistSnap; PersistPut; Restart; Load; Tick d; GcFilter] s) with (step c s0 GcFilter) in *.
   assert (Hpe : In (p, ts') (pending s0)) by exact H1.
   assert (Ha : gc_active s0 = false) by reflexivity.
   assert (Hn : ts' + g_grace c <= now s0).
@@ -912,7 +914,7 @@ Proof. vm_compute. auto. Qed.
 Example persisted_then_deleted_nonvacuous :
   let s := run cfg5 [Register 1%N 0 10; Register 2%N 0 10; Swap [1%N] 2%N] (init 100) in
   In (1%N, 100) (pending s) /\ (forall q t, In (q, t) (pending s) -> t <= now s) /\ ~ In 1%N (pins s) /\
-  objs (run cfg5 [Persist; Restart; Load; Tick 5; GcFilter; GcDelete 1%N] s) = [2%N].
+  objs (run cfg5 [PersistSnap; PersistPut; Restart; Load; Tick 5; GcFilter; GcDelete 1%N] s) = [2%N].
 Proof.
   vm_compute. split; [auto|]. split; [|split; [tauto|reflexivity]].
   intros q t [H|[]]. inversion H. subst. discriminate.
